@@ -5,7 +5,7 @@ from values import (Agg, Box_, Bytes, INT_TYPES, Opaque, PathEnd, Payload, Ref, 
 import copy
 import re
 import models as M
-from models import MODELS, model, deref, deref1, It, RcCell, VecObj, ListIt, to_bytes, length_of
+from models import MODELS, model, model_re, deref, deref1, It, RcCell, VecObj, ListIt, to_bytes, length_of
 
 
 # ========================================================================================
@@ -167,7 +167,15 @@ class ContentSink:
         return none()
 
     def length(self, I):
-        return Sym("content_len", (), "usize")
+        if getattr(self, "_len", None) is None:
+            self._len = Sym("content_len", (), "usize", 0, 1 << 32)
+        return self._len
+
+    def index_get(self, I, idx):
+        """element of unknown content: an arbitrary older cell (may alias anything, incl. an object being mutated)"""
+        key = ("elem", idx if isinstance(idx, int) else 0)
+        cell = self.get_field(I, key).as_rc(I)
+        return DEFAULT_CTX[0].mk_ref(cell)
 
     def to_vec(self, I):
         return ContentSink(None, "copy")
@@ -329,11 +337,18 @@ class LazyEnum:
 
 # ========================================================================================
 class StackLen:
-    """len(stack) + off, decided by lazy materialisation"""
+    """len(stack) + off, decided by lazy materialisation.  The term denotes a FIXED number: the length (position) it had when it
+    was created.  `off` is always read relative to the current length, i.e. it shifts by the pushes/pops made since (items
+    materialised below the known part do not count: they were there all along)."""
 
     def __init__(self, st, off=0):
         self.st = st
-        self.off = off
+        self._off = off
+        self._c0 = len(st.cur) - getattr(st, "prepended", 0)
+
+    @property
+    def off(self):
+        return self._off - ((len(self.st.cur) - getattr(self.st, "prepended", 0)) - self._c0)
 
     def __repr__(self):
         return "stack.len%+d" % self.off
@@ -435,6 +450,7 @@ class AbsStack:
         cell.orig_depth = len(self.orig)
         self.orig.append(cell)
         self.cur.insert(0, self.ctx.mk_ref(cell))
+        self.prepended = getattr(self, "prepended", 0) + 1
         return True
 
     def len_at_least(self, I, k):
@@ -557,6 +573,9 @@ class StackSlice:
 
     def slice(self, I, lo, hi):
         raise I.unanalysable("sub-slice of a stack sub-slice")
+
+    def to_vec(self, I):
+        return Opaque("stack_copy")      # a temporary copy of handles (snapshots): its content is not inspected by any rule
 
 
 class SlotRef(Box_):
@@ -813,6 +832,20 @@ def _hm_insert(I, f, a):
     return m.insert(I, *a[1:])
 
 
+@model_re(r"^<std::collections::Hash(Map|Set)<.*> as std::iter::Extend<.*>>::extend$")
+def _hm_extend(I, f, a):
+    """map.extend(iter): one insert per element (keys are hashed, handles are stored)"""
+    m = deref(I, a[0])
+    it = M.into_iter(I, a[1])
+    for x in M._drive(I, it):
+        parts = list(x.fields) if isinstance(x, Agg) and x.adt == "tuple" else [x]
+        _hash_key(I, parts[0])
+        if isinstance(a[0], Ref) and isinstance(a[0].box, M.CellBox):
+            I.run.event("store_into", a[0].box.cell, "insert", tuple(describe_handle(y) for y in parts))
+        m.insert(I, *parts)
+    return unit()
+
+
 @model("std::collections::HashMap::<K, V, S, A>::clear", "std::collections::BTreeMap::<K, V, A>::clear")
 def _hm_clear(I, f, a):
     deref(I, a[0]).clear(I)
@@ -825,6 +858,19 @@ def _hm_keys(I, f, a):
     if hasattr(m, "keys_iter"):
         return m.keys_iter(I)
     raise I.unanalysable("HashMap::keys on %r" % (m,))
+
+
+@model("std::collections::HashMap::<K, V, S, A>::capacity", "std::collections::HashSet::<T, S, A>::capacity")
+def _hm_capacity(I, f, a):
+    """capacity is an allocator detail: any value not below the length"""
+    return Sym("capacity", (), "usize", 0, 1 << 40)
+
+
+@model("std::collections::HashMap::<K, V, S, A>::shrink_to", "std::collections::HashMap::<K, V, S, A>::shrink_to_fit",
+       "std::collections::HashMap::<K, V, S, A>::reserve", "std::collections::HashSet::<T, S, A>::shrink_to",
+       "std::collections::HashSet::<T, S, A>::shrink_to_fit", "std::collections::HashSet::<T, S, A>::reserve")
+def _hm_capacity_only(I, f, a):
+    return unit()            # changes capacity only: no entry is added or removed
 
 
 @model("std::collections::BTreeMap::<K, V, A>::keys")
